@@ -412,3 +412,24 @@ CORPUS += [
     V("C12", "pdp-start-includes-deliveries", "rl4co/envs/routing/pdp/env.py", "            % num_possible_starts\n            + 1", "            % (2 * num_possible_starts)\n            + 1", "C12.d"),
     V("C12", "eq-ops-rename", OPSF, "selected", "picked", None, count=99),
 ]
+
+CORPUS += [
+    # ---------------------------------------------------------------- C13
+    V("C13", "beam-idx-parent-times-width", DECP, "        batch_beam_idx = batch_beam_sequence + beam_parent * batch_size\n", "        batch_beam_idx = batch_beam_sequence + beam_parent * self.beam_width\n", "C13.a"),
+    V("C13", "beam-seq-repeat-interleave", DECP, "            torch.arange(0, batch_size).repeat(self.beam_width).to(logprobs.device)", "            torch.arange(0, batch_size).repeat_interleave(self.beam_width).to(logprobs.device)", "C13.a"),
+    V("C13", "beam-decode-mod-width", DECP, "        selected = topk_ind % num_nodes  # determine node index", "        selected = topk_ind % self.beam_width  # determine node index", "C13.b"),
+    V("C13", "beam-decode-swapped", DECP, "        selected = topk_ind % num_nodes  # determine node index\n\n        # calc parent this branch comes from\n        beam_parent = (topk_ind // num_nodes).int()", "        selected = topk_ind // num_nodes  # determine node index\n\n        # calc parent this branch comes from\n        beam_parent = (topk_ind % num_nodes).int()", "C13.b"),
+    V("C13", "beam-hstack-split-width", DECP, "log_beam_prob_hstacked = torch.cat(log_beam_prob.split(batch_size), dim=1)", "log_beam_prob_hstacked = torch.cat(log_beam_prob.split(self.beam_width), dim=1)", "C13.b"),
+    V("C13", "beam-topk-wrong-k", DECP, "            log_beam_prob_hstacked, self.beam_width, dim=1\n", "            log_beam_prob_hstacked, batch_size, dim=1\n", "C13.b"),
+    V("C13", "beam-step-mask-not-reindexed", DECP, "        mask = mask[batch_beam_idx]\n", "", "C13.c"),
+    V("C13", "beam-step-td-not-reindexed", DECP, "        td = td[batch_beam_idx]\n", "", "C13.c"),
+    V("C13", "beam-parent-scores-not-updated", DECP, "        self.parent_beam_logprobs = logprobs_selected\n", "", "C13.d"),
+    V("C13", "beam-path-append-twice", DECP, "        self.beam_path.append(beam_parent)\n\n        return selected, batch_beam_idx", "        self.beam_path.append(beam_parent)\n        self.beam_path.append(beam_parent)\n\n        return selected, batch_beam_idx", "C13.d"),
+    V("C13", "backtrack-parent-not-followed", DECP, "            cur_parent = self.beam_path[k][batch_beam_idx]", "            cur_parent = self.beam_path[k]", "C13.d"),
+    V("C13", "backtrack-actions-unaligned", DECP, "            reversed_aligned_sequences.append(actions[batch_beam_idx, k])", "            reversed_aligned_sequences.append(actions[:, k])", "C13.d"),
+    V("C13", "backtrack-idx-times-width", DECP, "            batch_beam_idx = batch_beam_sequence + cur_parent * batch_size", "            batch_beam_idx = batch_beam_sequence + cur_parent * self.beam_width", "C13.a"),
+    V("C13", "best-beam-idx-plus-one", DECP, "        flat_idx = torch.arange(batch_size, device=rewards.device) + idx * batch_size", "        flat_idx = torch.arange(batch_size, device=rewards.device) * self.beam_width + idx", "C13.e"),
+    V("C13", "best-beam-td-not-gathered", DECP, "        return logprobs[flat_idx], actions[flat_idx], td[flat_idx], env", "        return logprobs[flat_idx], actions[flat_idx], td[: flat_idx.shape[0]], env", "C13.e"),
+    V("C13", "eq-beam-rename", DECP, "batch_beam_sequence", "bseq", None, count=99),
+    V("C13", "eq-beam-commute", DECP, "        batch_beam_idx = batch_beam_sequence + beam_parent * batch_size\n", "        batch_beam_idx = batch_size * beam_parent + batch_beam_sequence\n", None),
+]
